@@ -117,7 +117,7 @@ func frun(args []string) error {
 			if !want(*only, "k", k) {
 				continue
 			}
-			for _, kind := range []string{"err", "short"} {
+			for _, kind := range []string{"err", "short", "full"} {
 				for _, perm := range []bool{false, true} {
 					sink := &run.FaultSink{K: k, Kind: kind, Permanent: perm}
 					sub := wl.NewTrace()
